@@ -283,7 +283,7 @@ func PerpendicDistFromLineSqr64(pt, line1, line2 Point64) float64 {
 		return 0
 	}
 
-	return float64(sqr(a*d-c*b)) / float64(c*c+d*d)
+	return sqr(float64(a*d-c*b)) / float64(c*c+d*d)
 }
 
 func Ellipse64(center Point64, radiusX, radiusY float64, steps int) Path64 {
